@@ -417,7 +417,8 @@ def topological_symmetry_number(graph: StereoMolGraph) -> int:
             "all stereocenters have to be defined"
             " to calculate the symmetry number"
         )
-    colorings = color_refine_smg(graph)
+    color_array = color_refine_smg(graph)
+    colorings = {a: int(c) for a, c in zip(graph.atoms, color_array)}
     mappings = vf2pp_all_isomorphisms(
         graph, graph, atom_labels=(colorings, colorings), stereo=True
     )
